@@ -370,6 +370,9 @@ def run(ctx, ndocs=None, lockstep=True):
             ctx.count('wrapper-copy:' + name)
             if fail:
                 ctx.oracle_fail(fail[0], fail[1], {**base_replay, 'mode': 'wrapper', 'path': list(path), 'name': name, 'steps': done})
+    # exact: the same operation on a document with a history and on a deep copy of it taken just before has the same outcome
+    import session
+    session.run_sessions(ctx, ctx.scale(150, 3000) if ndocs is None or ndocs > 200 else 60, 12, ['twin'], malformed=0.1, prefix='C11:')
     if model_ok and lines:
         out = ctx.driver.run(lines)
         ctx.extra['lockstep_lines'] = len(lines)
@@ -387,6 +390,9 @@ def replay(ctx, data):
     rep = data.get('replay') or data.get('first_diverging_replay') or data
     if not rep or 'text' not in rep:
         return False
+    if 'ops' in rep and 'oracles' in rep:
+        import session
+        return not session.replay(data, ['twin'])
     root = build_doc(rep['text'], rep['auto_claim'], rep.get('pre_ops', []))
     mode = rep.get('mode', 'copy')
     if mode == 'inv':
